@@ -5,25 +5,25 @@ CHECKS = [
       technique='Lean 4 refinement proof (interpreter model = language-definition spec, induction over trees) + model/code correspondence check',
       text='Proved in Lean for all trees, environments and number implementations: the interpreter model returns exactly the value or winning error of the '
            'language definition (execute_eq_spec), Boolean results, no coercion in arithmetic, undefined-variable rules; for the actual number type (core Float): + - * / are the IEEE operations, div = trunc(a/b) with the IEEE sign rule, mod is the exact C fmod with the dividend\'s sign and |r| < |y|, = and the ordering are IEEE ==/partial order with the documented NaN and Boolean coercion rules (C03Float). The model is tied to the crate on every run by '
-           'the enumerated operator x kind x kind x {defined,undefined,failing} table and random nested trees; the Spec is also run directly against the crate as the falsifier.',
+           'the enumerated operator x kind x kind x {defined,undefined,failing} table and random nested trees; the Spec is also run directly against the crate as the falsifier. Second leg: tools/translate.py regenerates the operator arms of value.rs and the dispatch of interpreter.rs (unary, outer and inner match of binary, boolean::<FULL_EVAL>, ternary) from the source text on every run and C03Source.lean proves the compositional model is exactly those arms in source order.',
       note=TB + "core Float operations implement core's Float.Model; bit-level trunc/fmod/parse definitions tied by the num stream."),
  dict(property_id='C04', design_ref='DESIGN.md 7 C04',
       technique='Lean 4 refinement proof on result+event-trace pairs + correspondence through a recording Environment',
       text='Proved in Lean for all trees and environments: the sequence of variable lookups and native calls (with argument values) equals the prescribed one '
-           '(trace_eq_spec) with laziness corollaries (and/or short circuit, conditional branches, argument lists). Tie: the same trees executed through a recording Environment.',
+           '(trace_eq_spec) with laziness corollaries (and/or short circuit, conditional branches, argument lists). Tie: the same trees executed through a recording Environment; the translated interpreter arms (C03Source.lean) are re-checked on every run.',
       note=TB + 'the recording Environment in harness/src/env.rs logs exactly the trait calls.'),
  dict(property_id='C12', design_ref='DESIGN.md 7 C12',
       technique='Lean 4 proof of fromJson(toJson e) = e by induction over trees (serde data-model level) + JSON correspondence and bit-exact round trips on the crate',
-      text='Proved in Lean for all trees with finite number literals: deserialising the serialisation yields the identical tree (json_roundtrip), also through any faithful text layer; '
+      text='Proved in Lean for all trees with finite number literals: deserialising the serialisation yields the identical tree (json_roundtrip), also through any faithful text layer; the serde_json text layer itself is modelled (JsonText.lean: printer, depth-limited reader) and proved: a tree with finite literals survives the TEXT route iff its JSON nests at most 127 containers (json_roundtrip_text_iff); '
            'and the exact boundary: a non-finite literal serialises to null and is rejected (json_nonfinite_counterexample; recorded known finding). '
-           'Tie: the canonical JSON produced by the crate is compared with the model; value- and text-route round trips are checked bit-exactly on the crate.',
-      note=TB + 'serde_json text layer (built with float_roundtrip) and serde derive are trusted; non-finite literals are a recorded known finding (C12-nonfinite-literal).'),
+           'Tie: the canonical JSON value AND the JSON text produced by the crate are compared with the model (text byte for byte), incl. 300-level trees; value- and text-route round trips are checked bit-exactly on the crate.',
+      note=TB + 'serde derive is trusted; serde_json\'s number printing algorithm (zmij) is modelled as shortest-round-trip with ties to even and tied by comparison; recorded known findings: non-finite literals (C12-nonfinite-literal), text deeper than 127 containers (C12-text-depth-limit).'),
 
  dict(property_id='C01', design_ref='DESIGN.md 7 C01',
       technique='Lean 4 proof (Pratt-loop key lemma by induction over the rendering judgement; fuel bound) + parser/scanner correspondence incl. exhaustive token-kind sequences',
       text='Proved in Lean for every tree and EVERY rendering of it (mutual judgement Bare/Rn/RnList covers minimal, full and any redundant parenthesisation): parse ts = ok e (parse_rendering, parse_renderMin, parse_renderFull); '
            'everything the parser accepts is source-expressible and re-rendering reproduces it (parse_wf, reparse, reparse_any); renderings are unambiguous (renders_injective). '
-           'Tie: all token-kind sequences of length <=4/<=5 and random longer ones against Compiler::compile_ast; text level against compile. Falsifier: render -> compile -> bit-exact comparison on the crate.',
+           'Tie: all token-kind sequences of length <=4/<=5 and random longer ones against Compiler::compile_ast; text level against compile. Falsifier: render -> compile -> bit-exact comparison on the crate. Second leg: tools/translate.py regenerates the precedence / operator / dispatch / keyword tables from the source text on every run and C01Source.lean proves the model parser and scanner are those tables plugged into the Pratt skeleton.',
       note=TB + 'token texts/layout are the scanner\'s part (C02); the harness renderer is trusted to implement the documented precedence table.'),
  dict(property_id='C02', design_ref='DESIGN.md 7 C02',
       technique='Lean 4 proof over a structural scanner model (separator grammar invisibility, n-ary layout theorem, string/keyword/number lemmas) + scanner correspondence incl. exhaustive fragment sequences',
@@ -79,18 +79,20 @@ CHECKS = [
  dict(property_id='C09', design_ref='DESIGN.md 7 C09',
       technique='Lean 4 proofs of SLAC\'s own index arithmetic + kernel-decided regenerated dispatch table + crash-observing call stream in 4 builds',
       text='PARTIAL by nature: the builtin models are total functions without a panic outcome. Proved: get_index/get_string_index never underflow and are exact in both offset configurations; on the table regenerated from the running crate no builtin panicked on any of 1365 kind tuples (decide +kernel). '
-           'The tie runs all 77 builtins on boundary-heavy argument lists in worker processes in all 4 builds and compares answers with the model. Recorded known finding: sort() on collections outside the Safe ordering domain can panic inside slice::sort.',
+           'The tie runs all 77 builtins on boundary-heavy argument lists in worker processes in all 4 builds and compares answers with the model. chrono\'s formatter and parsers and regex-lite are now inside the model (TimeFmt/TimeParse/RegexEngine) with totality theorems, so their calls are compared too; the date/time builtins also run under DST zones east and west of Greenwich. Recorded known findings: sort() on collections outside the Safe ordering domain can panic inside slice::sort; string_to_date with %G and the year at an i32 limit panics inside chrono in overflow-checked builds.',
       note=TB + 'panics inside chrono / slice::sort / regex-lite, memory and time are visible only to the crash-observing run.'),
  dict(property_id='C14', design_ref='DESIGN.md 7 C14',
       technique='Lean 4: builtin models are functions of their arguments; kernel-decided regenerated registry table; folding-is-calling theorem + repeated-call and two-process determinism check',
       text='PARTIAL by nature: every pure builtin\'s model is a Lean function of its argument list (no state/clock/seed), so the content is the tie; proved: exactly random and choice are registered impure (regenerated table), folding a pure call writes exactly env.call\'s answer, impure calls are never folded, unique is first-occurrence dedup by ==. '
-           'Observation: each argument list evaluated 20x in-process with other calls in between and in two separate processes.',
+           'The two impure builtins are modelled with the OS random word explicit (Nondet.lean): choice answers a member, every member is reachable, it fails exactly on the empty list (C14Nondet.lean); the nd stream asks the model whether some word explains each recorded answer. '
+           'Observation: each argument list evaluated 20x in-process with other calls in between and in two separate processes in opposite order under a DST zone.',
       note=TB + '"fresh process, different hasher seed" is observation.'),
  dict(property_id='C18', design_ref='DESIGN.md 7 C18',
-      technique='Lean 4 proofs about the regex wrappers over an abstract engine, relative to stated engine laws + wrapper correspondence with shipped raw engine answers',
-      text='PARTIAL by nature: regex-lite is not modelled. The four wrappers are modelled over an abstract Engine; proved: is_match iff find non-empty, capture shape and equal lengths, replace = replacen with the documented defaults and limit, escaped literals = contains/count/replace — each relative to explicit engine laws — and invalid pattern => error with no law. '
-           'Tie: wrapper outputs compared exactly given the raw engine answers; the laws and the property\'s relations are evaluated on the crate by relaw.',
-      note=TB + 'engine laws (LawfulEngine, ReplacenSplices, LiteralLaw) are hypotheses sampled as tests.'),
+      technique='Lean 4 proofs about the regex wrappers over an abstract engine; the engine laws PROVED for a concrete model of regex-lite (parser, leftmost-first matcher, find_iter, interpolation) + exact correspondence of that model with the crate on random-grammar patterns',
+      text='The four wrappers are modelled over an abstract Engine; proved: is_match iff find non-empty, capture shape and equal lengths, replace = replacen with the documented defaults and limit, escaped literals = contains/count/replace — each relative to explicit engine laws — and invalid pattern => error with no law. '
+           'A concrete engine (SlacModel/RegexEngine.lean) models regex-lite 0.1.9: every parse error branch, nest and size limits, leftmost-first matching with captures, the find_iter empty-match rule, $-interpolation; C18Engine.lean proves LawfulEngine and restates every theorem with no engine hypothesis, the escaped-literal law, soundness w.r.t. a declarative Matches relation and fuel sufficiency. PARTIAL in one respect: that regex-lite\'s PikeVM computes the model\'s function is the behavioural tie (rex/rexvalid/rexcall streams, exact comparison), not a theorem; patterns with a nullable body under an unbounded loop, flag x and non-ASCII group names are outside the model. '
+           'Tie: wrapper outputs compared exactly given the raw engine answers; the concrete engine compared exactly on random-grammar patterns; the property\'s relations are evaluated on the crate by relaw.',
+      note=TB + 'the engine laws of C18.lean are proved for the model engine (C18Engine.lean); regex-lite = model engine is differential testing.'),
 
  dict(property_id='C15', design_ref='DESIGN.md 7 C15',
       technique='Lean 4 proofs: builtin models = independent sequence specification; position-coherence laws for both index bases + builtin correspondence in both builds',
@@ -103,7 +105,7 @@ CHECKS = [
       technique='Lean 4 proofs: calendar bijection by omega for all years, rounding bound over Q (Mathlib) for decode(encode), builtin specifications + exhaustive date / millisecond enumeration against the crate',
       text='Proved in Lean: days-from-civil and civil-from-days are mutually inverse for ALL dates (every integer year), day numbering starts at 1970-01-01 and steps by one per calendar day, weekday/leap/month-length rules, addMonths = whole months with clamping; '
            'for every number type satisfying LawfulTimeNum: decode(encode t) = t for all valid dates of years 1-9999 x all milliseconds, every component extractor, encode_date/encode_time specifications and rejections, default-format string round trips, inc_month, date+time = x. '
-           'The rounding fact behind decode(encode) is proved over Q from the standard model of floating point. Tie: quick = sampled ranges; thorough = all 3.65 M dates and all 86.4 M ms evaluated on the crate and on the model (digest comparison).',
+           'The rounding fact behind decode(encode) is proved over Q from the standard model of floating point. chrono\'s strftime formatter (every specifier), its format-driven parser and its RFC 3339 / RFC 2822 parsers are modelled (TimeFmt, TimeParse, TimeRfc) with 72 further theorems (C16Rfc): RFC 3339 round trip exact to the ms, RFC 2822 to the second, strftime fails iff the format contains a failing item, one theorem per specifier, totality. Tie: quick = sampled ranges; thorough = all 3.65 M dates and all 86.4 M ms evaluated on the crate and on the model (digest comparison); tm* streams feed the crate\'s own texts back through the parsers.',
       note=TB + 'LawfulTimeNum Float is proved from core Float.Model (standard model for * and / on normal results, then the round-trip identity), so the theorems hold for binary64 unconditionally (C16Float); chrono beyond the modelled calendar/format subset is skipped and counted.'),
 
  dict(property_id='C17', design_ref='DESIGN.md 7 C17, 15.2',
